@@ -12,6 +12,13 @@ def fuzz(name, target, fuzztime, workers=8, timeout=None):
     return {"name": name, "kind": "fuzz", "target": target, "thorough": t}
 
 PROPS = {
+    "C19": {
+        "level": "exploration",
+        "jobs": [
+            rapid("api", "^TestC19$", {"checks": 15, "steps": 40, "shards": 8, "timeout": 900, "shrinktime": "30s"},
+                  {"checks": 300, "steps": 60, "shards": 14, "timeout": 5000, "shrinktime": "120s"}),
+        ],
+    },
     "C08": {
         "level": "exploration",
         "jobs": [
